@@ -173,15 +173,25 @@ Fixpoint confirm_copies (b : bstate) (ans : list answer) (l : list (path * (entr
 Definition remove_paths {V} (rm : list path) (l : list (path * V)) : list (path * V) :=
   filter (fun e => negb (existsb (path_eqb (fst e)) rm)) l.
 
+(* Destination entries that are kept although a source entry needs their place (a skipped deletion
+   whose reason is Incompatible), and the copies that are therefore dropped: the source entry itself
+   and everything inside it (boss_sync.rs confirm_actions, after the delete loop). *)
+Definition kept_in_the_way (rmd : list path) (dl : list (path * (entry * dreason))) : list path :=
+  map fst (filter (fun e => existsb (path_eqb (fst e)) rmd &&
+                            match snd (snd e) with Incompatible => true | NotOnSource => false end) dl).
+Definition not_blocked {V} (kept : list path) (e : path * V) : bool :=
+  negb (existsb (fun k => is_prefix k (fst e)) kept).
+
 Definition confirm (b : bstate) (ans : list answer) (a : actions) : confirm_result :=
   match confirm_deletes (b_entry b) ans (a_delete a) [] with
   | None => CFail
   | Some (rmd, be, ans1, n1) =>
       let b1 := mkB (b_newer b) (b_older b) (b_same b) be in
-      match confirm_copies b1 ans1 (a_copy a) n1 with
+      let copies1 := filter (not_blocked (kept_in_the_way rmd (a_delete a))) (a_copy a) in
+      match confirm_copies b1 ans1 copies1 n1 with
       | None => CFail
       | Some (rmc, b2, ans2, n2) =>
-          CDone (mkActions (remove_paths rmd (a_delete a)) (remove_paths rmc (a_copy a))) (rmd ++ rmc) b2 ans2 n2
+          CDone (mkActions (remove_paths rmd (a_delete a)) (remove_paths rmc copies1)) (rmd ++ rmc) b2 ans2 n2
       end
   end.
 
